@@ -464,8 +464,22 @@ func (s *Sched) newThread(name string, rank int) *thread {
 
 func (s *Sched) threadMain(t *thread, body func()) {
 	defer close(t.exited)
+	returned := false
 	defer func() {
-		if r := recover(); r != nil {
+		r := recover()
+		if r == nil && !returned && !s.aborted {
+			// runtime.Goexit inside the thread (its deferred calls have run, as scheduling points if they
+			// contain any): the thread is over, hand the baton on exactly as after a normal return
+			s.changes++
+			t.done = true
+			t.pending = nil
+			func() {
+				defer func() { _ = recover() }() // an abort raised while handing over must not escape a dying goroutine
+				s.dispatch(t)
+			}()
+			return
+		}
+		if r != nil {
 			if _, ok := r.(abortSignal); ok {
 				return
 			}
@@ -488,6 +502,7 @@ func (s *Sched) threadMain(t *thread, body func()) {
 		}
 	}
 	body()
+	returned = true
 	// thread ends: hand over
 	s.changes++
 	t.done = true
